@@ -6,7 +6,7 @@ pid, wt = sys.argv[1], sys.argv[2]
 p = [json.loads(l) for l in open('/verif/properties.jsonl') if json.loads(l)['id'] == pid][0]
 print(f"""You are helping to evaluate a verification framework for a Rust project (an analytical SQL engine on Arrow, crate `query_engine`). Your job is to play the role of a developer who introduces a subtle bug.
 
-You have your own scratch git worktree of the project at {wt} (work ONLY inside it; never touch /repo or /verif, and do not read anything under /verif). There is no network and DISK SPACE IS TIGHT: do NOT copy /repo/target; instead export CARGO_TARGET_DIR=/tmp/agents-target for every cargo command (a build directory shared with other agents -- cargo may wait for its lock, that is fine) and always pass --offline. Keep command output short (pipe long test output through tail/grep).
+You have your own scratch git worktree of the project at {wt} (work ONLY inside it; never touch /repo or /verif, and do not read anything under /verif). There is no network and DISK SPACE IS TIGHT: do NOT copy /repo/target; export CARGO_TARGET_DIR=/tmp/agent-target-{pid} for every cargo command (your own build directory; the first build takes several minutes), always pass --offline, prefix heavy cargo commands with `nice -n 15`, and DELETE /tmp/agent-target-{pid} when you are finished. Keep command output short (pipe long test output through tail/grep).
 
 Here is a semantic property the project is supposed to satisfy:
 
